@@ -58,10 +58,18 @@ def build_request(rid):
     return q, kw
 
 
+_REQUESTS = {}
+
+
 def solve_request(rid):
     from bldfm.solver import steady_state_transport_solver
 
-    q, kw = build_request(rid)
+    # the SAME argument objects every time a request is repeated: "bit-identical repeats" is a statement about repeating a
+    # call, and FFTW picks its code path by the alignment of the array it is handed - an equal copy at another address may
+    # legitimately differ in the last bit
+    if rid not in _REQUESTS:
+        _REQUESTS[rid] = build_request(rid)
+    q, kw = _REQUESTS[rid]
     k = dict(kw)
     g, c, f = steady_state_transport_solver(q, k.pop("z"), k.pop("profiles"), k.pop("domain"), k.pop("levels"), **k)
     return np.asarray(c), np.asarray(f)
